@@ -1,3 +1,4 @@
 ---- MODULE MC_TrackerTree ----
 EXTENDS TrackerTree
+MCConfs == AllConfs
 ====
